@@ -62,6 +62,13 @@ PROPS = {
                unit("c02-text", "route", ROUTE_COMMON + ["route/c02_text_test.go"], "^TestVerifC02Text"),
                unit("c02-hist", ".", MAIN_COMMON + ["main/c02_hist_test.go"], "^TestVerifC02Hist")],
         layers={"quick": ["c02-sched", "c02-text", "c02-hist"], "thorough": ["c02-sched", "c02-text", "c02-hist"]}),
+    "C12": dict(level="exploration", engine="benum",
+        technique="bounded-exhaustive enumeration of rule strings x peers x X-Forwarded-For chains x credentials against a netip reference; end-to-end through HTTPProxy and the TCP proxies",
+        level_text="Every allow/deny list of up to 2 items from a 13-item alphabet (well-formed and malformed), 10 peer addresses (v4, v6, zone-scoped, v4-mapped), 7 X-Forwarded-For shapes, through the real option parser and AccessDeniedHTTP/TCP; auth scheme x credentials matrix; end-to-end status codes and upstream hit counters through HTTPProxy.ServeHTTP and the tcp proxies.",
+        level_note="Reference semantics from net/netip with v4-mapped addresses unmapped. Where the statement leaves a case open (address inside the well-formed part of a partly malformed rule) nothing is asserted.",
+        units=[
+        unit("c12-rules", "route", ROUTE_COMMON + ["route/sched_test.go", "route/c12_test.go"], "^TestVerifC12", engines=SCHED),
+    ], layers={"quick": ["c12-rules"], "thorough": ["c12-rules"]}),
 }
 
 def layer_unit(pid, layer):
